@@ -29,7 +29,9 @@ theorem Inv.post_step {cfg : Cfg} {s : St} {d d' : Disk} (h : Inv cfg s d) {j : 
     ⟨j, hj, hnr⟩ (fun hb' => by
       have : pc'.beforeCommit = true := hb'
       rw [hnb] at this; cases this)
-    (fun j0 h0 => by rw [hj] at h0; cases h0; exact ⟨rfl, fun _ _ => hnb⟩)
+    (fun j0 h0 => by
+      rw [hj] at h0; cases h0
+      exact ⟨rfl, fun _ _ => by cases pc' <;> simp_all [JPc.post, JPc.uninstalled, JPc.beforeCommit]⟩)
     (fun _ => h.post_limbo hj hpost pc' hp' het)
   have hlv' : lastView cfg d' = lastView cfg d := by unfold lastView; rw [hcm]
   constructor
